@@ -187,6 +187,43 @@ func printTree(e *xexpr, minifyWhitespace bool) string {
 	return strings.TrimSuffix(strings.TrimSuffix(string(res.JS), ";\n"), ";")
 }
 
+// prints the expression as the initialiser of a for loop (printed with the forbidIn flag);
+// returns the whole statement and the initialiser alone
+func printTreeForInit(e *xexpr, minifyWhitespace bool) (string, string) {
+	tb := &treeBuilder{byName: map[string]uint32{}}
+	expr := tb.build(e)
+	symbols := ast.NewSymbolMap(1)
+	symbols.SymbolsForSource[0] = tb.symbols
+	loop := &js_ast.SFor{InitOrNil: js_ast.Stmt{Data: &js_ast.SExpr{Value: expr}}, Body: js_ast.Stmt{Data: js_ast.SEmptyShared}, IsSingleLineBody: true}
+	tree := js_ast.AST{Parts: []js_ast.Part{{Stmts: []js_ast.Stmt{{Data: loop}}}}}
+	res := js_printer.Print(tree, symbols, renamer.NewNoOpRenamer(symbols), js_printer.Options{MinifyWhitespace: minifyWhitespace, ASCIIOnly: true})
+	full := string(res.JS)
+	head, tail := "for (", "; ; )"
+	if minifyWhitespace {
+		head, tail = "for(", ";;)"
+	}
+	k := strings.LastIndex(full, tail)
+	if !strings.HasPrefix(full, head) || k < 0 {
+		panic("unexpected for-loop print: " + full)
+	}
+	return full, full[len(head):k]
+}
+
+func containsIn(e *xexpr) bool {
+	if e == nil {
+		return false
+	}
+	if e.k == xBin && e.op == js_ast.BinOpIn {
+		return true
+	}
+	for _, a := range e.args {
+		if containsIn(a) {
+			return true
+		}
+	}
+	return containsIn(e.a) || containsIn(e.b) || containsIn(e.c)
+}
+
 var identPool = []string{"a\U00010000", "x1\U00020000", "a", "b", "c", "x1", "$", "_", "of", "get", "set", "async", "static", "type", "as", "from", "in1", "typeofx", "voidy", "i", "n", "instance", "delete_", "Z9", "await_", "e", "E1", "x", "in_", "this", "null", "true", "false"}
 
 const nTargetIdents = 29 // prefix of identPool that may be assigned to
@@ -451,6 +488,22 @@ func gluingGrid() []*xexpr {
 			out = append(out, bin(b, nw(id("a")), id("x")), bin(b, call(id("a")), id("x")), bin(b, nw(id("a")), nw(id("b"))))
 		}
 	}
+	// "in" in every position the forbidIn flag reaches or stops at (these are also printed as for-loop initialisers)
+	ain := bin(js_ast.BinOpIn, id("a"), id("b"))
+	out = append(out, ain, bin(js_ast.BinOpIn, ain, id("c")), bin(js_ast.BinOpIn, id("c"), ain), un(js_ast.UnOpNot, ain), un(js_ast.UnOpTypeof, ain),
+		cond(ain, ain, ain), cond(id("x"), ain, cond(id("y"), ain, ain)), cond(cond(ain, ain, ain), id("x"), id("y")), bin(js_ast.BinOpAdd, cond(ain, ain, ain), id("x")),
+		call(ain), call(id("f"), ain, ain), nw(ain), nw(id("f"), ain), idx(ain, ain), idx(id("x"), ain), dot(ain, "e"), un(js_ast.UnOpPostInc, dot(ain, "e")),
+		bin(js_ast.BinOpComma, ain, ain), bin(js_ast.BinOpComma, bin(js_ast.BinOpComma, ain, ain), ain), bin(js_ast.BinOpComma, id("x"), bin(js_ast.BinOpComma, ain, ain)),
+		bin(js_ast.BinOpAssign, id("x"), bin(js_ast.BinOpAssign, id("y"), ain)), bin(js_ast.BinOpAssign, idx(id("x"), ain), ain), bin(js_ast.BinOpAssign, id("x"), cond(ain, ain, ain)),
+		bin(js_ast.BinOpInstanceof, ain, ain), bin(js_ast.BinOpLt, ain, ain), bin(js_ast.BinOpIn, bin(js_ast.BinOpAdd, id("a"), id("b")), bin(js_ast.BinOpAdd, id("c"), id("d"))),
+		bin(js_ast.BinOpIn, un(js_ast.UnOpNot, id("a")), un(js_ast.UnOpNeg, id("b"))), bin(js_ast.BinOpIn, &xexpr{k: xRe, s: "x", f: "g"}, &xexpr{k: xNum, s: "1", value: 1}),
+		bin(js_ast.BinOpLogicalOr, bin(js_ast.BinOpLogicalAnd, ain, ain), bin(js_ast.BinOpNullishCoalescing, ain, id("x"))))
+	for _, b := range bins {
+		out = append(out, bin(b, id("x"), ain))
+		if b < js_ast.BinOpAssign {
+			out = append(out, bin(b, ain, id("x")))
+		}
+	}
 	out = append(out, un(js_ast.UnOpTypeof, &xexpr{k: xRe, s: "x", f: ""}), un(js_ast.UnOpVoid, un(js_ast.UnOpTypeof, id("a"))), un(js_ast.UnOpTypeof, un(js_ast.UnOpNeg, id("a"))))
 	return out
 }
@@ -518,9 +571,23 @@ func runC13(seed uint64, n int, tier string, outDir string) []*Stats {
 		if i < nGrid {
 			modes = []bool{true, false} // every grid tree in both whitespace modes
 		}
+		// with the forbidIn flag (as the initialiser of a for loop): every tree with an "in" operator, every fifth other tree
+		if containsIn(e) || i%5 == 0 {
+			for _, m := range modes {
+				full, init := printTreeForInit(e, m)
+				items = append(items, fmt.Sprintf("(%s,true,%s,%s)", CBool(m), e.coq(m), CBytes([]byte(init))))
+				st.Note("print-tree-forbid-in", init+fmt.Sprint(m), containsIn(e))
+				other := ""
+				if idOnly(e) {
+					other, _ = printTreeForInit(e, !m)
+					other = strings.TrimSuffix(strings.TrimSuffix(other, "\n"), ";")
+				}
+				printed = append(printed, printedTree{full, m, other, i < nGrid})
+			}
+		}
 		for _, m := range modes {
 			out := printTree(e, m)
-			items = append(items, fmt.Sprintf("(%s,%s,%s)", CBool(m), e.coq(m), CBytes([]byte(out))))
+			items = append(items, fmt.Sprintf("(%s,false,%s,%s)", CBool(m), e.coq(m), CBytes([]byte(out))))
 			st.Note("print-tree", out+fmt.Sprint(m), e.k == xUn || e.k == xBin)
 			other := ""
 			if idOnly(e) {
@@ -532,8 +599,8 @@ func runC13(seed uint64, n int, tier string, outDir string) []*Stats {
 			}
 		}
 	}
-	cf.AddCases("print_cases", "bool * expr * bytes", "check_print", items)
-	cf.AddCases("relex_cases", "bool * expr * bytes", "check_relex", items)
+	cf.AddCases("print_cases", "bool * bool * expr * bytes", "check_print", items)
+	cf.AddCases("relex_cases", "bool * bool * expr * bytes", "check_relex", items)
 	// the specification parser is slow under vm_compute: every third case (both modes of a grid tree alternate)
 	var third []string
 	for i, it := range items {
@@ -541,12 +608,12 @@ func runC13(seed uint64, n int, tier string, outDir string) []*Stats {
 			third = append(third, it)
 		}
 	}
-	cf.AddCases("reparse_cases", "bool * expr * bytes", "check_reparse", third)
+	cf.AddCases("reparse_cases", "bool * bool * expr * bytes", "check_reparse", third)
 
 	// --- glue streams through api.Transform
 	glue(r, st, n, tier, printed)
 
-	st.Finish("seeded generator (splitmix64 from VERIF_SEED): js_ast.OpTable rows; keyword candidates (ECMA-262 reserved words, strict/future/contextual words, near misses) against the run-time maps and the real lexer; expression trees (exhaustive operator-adjacency grid + random trees over all 53 operators, identifiers incl. contextual keywords, integers, regexps, member/index access, conditionals, calls and new-expressions with argument lists) printed by js_printer.Print in both whitespace modes; glue: trees, jsgen programs, all string literals of js_parser_test.go/js_printer_test.go, rare-production grammar generator and token-level mutations through api.Transform under format x minify-whitespace x charset x JSX-preserve, checked by node (vm.Script / vm.SourceTextModule) and by a second Transform. distinct_nontrivial = distinct (kind,input) with at least one operator / accepted program")
+	st.Finish("seeded generator (splitmix64 from VERIF_SEED): js_ast.OpTable rows; keyword candidates (ECMA-262 reserved words, strict/future/contextual words, near misses) against the run-time maps and the real lexer; expression trees (exhaustive operator-adjacency grid + random trees over all 53 operators, identifiers incl. contextual keywords, integers, regexps, member/index access, conditionals, calls and new-expressions with argument lists) printed by js_printer.Print in both whitespace modes, as expression statements and (forbidIn) as for-loop initialisers; glue: trees, jsgen programs, all string literals of js_parser_test.go/js_printer_test.go, rare-production grammar generator and token-level mutations through api.Transform under format x minify-whitespace x charset x JSX-preserve, checked by node (vm.Script / vm.SourceTextModule) and by a second Transform. distinct_nontrivial = distinct (kind,input) with at least one operator / accepted program")
 	if err := os.WriteFile(filepath.Join(outDir, "c13_cases.v"), []byte(cf.String()), 0o644); err != nil {
 		panic(err)
 	}
